@@ -7,7 +7,7 @@ from common import log
 UNWIND = 'unwinding assertion'
 
 
-def decide(run, pid, specs, sweeps, timeout_quick=420, timeout_thorough=1500, functions=None):
+def decide(run, pid, specs, sweeps, timeout_quick=1200, timeout_thorough=2400, functions=None):
     """specs: [(harness, title, tier, sweep names)]; sweeps: {name: callable -> (n, bad)}."""
     todo = [s for s in specs if s[2] == 'quick' or run.tier == 'thorough']
     native = {}
